@@ -655,6 +655,95 @@ func runConcStream(seed int64, n int, out, backendSpec string) *RunReport {
 			env.destroy()
 		}
 	}
+	// ids generated concurrently are distinct; one document object handed to two goroutines is only read; several goroutines
+	// closing the handle at once close the store once
+	for round := 0; round < 3 && round < n; round++ {
+		for _, be := range backendsOf(backendSpec) {
+			env, err := newEnv(be)
+			if err != nil {
+				continue
+			}
+			env.st.yield = true
+			db := env.db
+			db.CreateCollection("g1")
+			db.CreateCollection("g2")
+			shared := d.NewDocumentOf(map[string]interface{}{"_id": concId(870, round), "when": time.Unix(1700000000, 5).In(zoneP2), "l": []interface{}{time.Unix(1, 0).UTC(), map[string]interface{}{"at": time.Unix(2, 0).UTC()}}})
+			sharedBefore := Tstr(tValue(shared.AsMap()))
+			var dupKey int32
+			var idsMu sync.Mutex
+			ids := map[string]int{}
+			var wg sync.WaitGroup
+			for w := 0; w < 4; w++ {
+				wg.Add(1)
+				go func(w int) {
+					defer wg.Done()
+					defer func() {
+						if r := recover(); r != nil {
+							f.failf("panic in concurrent inserts on %s: %v", be, r)
+						}
+					}()
+					coll := []string{"g1", "g2"}[w%2]
+					for i := 0; i < 6; i++ {
+						doc := d.NewDocumentOf(map[string]interface{}{"w": int64(w), "i": int64(i)})
+						err := db.Insert(coll, doc)
+						if err == clover.ErrDuplicateKey {
+							atomic.AddInt32(&dupKey, 1)
+						}
+						if err == nil {
+							idsMu.Lock()
+							ids[doc.ObjectId()]++
+							idsMu.Unlock()
+						}
+					}
+					if w < 2 {
+						db.Insert(coll, shared) // the same document object from two goroutines, into two collections
+					}
+				}(w)
+			}
+			okDone := withDeadline(60*time.Second, func() { wg.Wait() })
+			evals += 26
+			if !okDone {
+				f.failf("concurrent insert workload deadlocked on %s", be)
+				continue
+			}
+			if dupKey > 0 {
+				f.failf("%d inserts of documents WITHOUT an _id were refused as duplicates under concurrency on %s (generated ids collided)", dupKey, be)
+			}
+			for id, cnt := range ids {
+				if cnt > 1 {
+					f.failf("the generated _id %s was handed to %d concurrently inserted documents on %s", id, cnt, be)
+					break
+				}
+			}
+			if after := Tstr(tValue(shared.AsMap())); after != sharedBefore || nonCanonical(shared.AsMap()) != "" {
+				f.failf("a document object saved by two goroutines was modified by the saves on %s", be)
+			}
+			// concurrent Close
+			var cg sync.WaitGroup
+			var closePanics int32
+			for w := 0; w < 4; w++ {
+				cg.Add(1)
+				go func() {
+					defer cg.Done()
+					defer func() {
+						if r := recover(); r != nil {
+							atomic.AddInt32(&closePanics, 1)
+							f.failf("concurrent Close panicked on %s: %v", be, r)
+						}
+					}()
+					db.Close()
+				}()
+			}
+			if !withDeadline(30*time.Second, func() { cg.Wait() }) {
+				f.failf("concurrent Close deadlocked on %s", be)
+				env.wedged = true
+			}
+			env.closed = true
+			distinct[fmt.Sprintf("%s/genids-close", be)] = true
+			env.db = nil
+			env.destroy()
+		}
+	}
 	// one batch beyond what a single badger transaction accepts (and a big one on the others): readers polling while it
 	// is written see none or all of it, and a refused batch leaves nothing
 	for _, be := range backendsOf(backendSpec) {
